@@ -18,7 +18,8 @@ import (
 func init() {
 	register(&RuleSet{
 		ID: "C05",
-		Explanation: "R10 nothing in ovmf/tdx writes into storage obtained from a section's HostBuffer while section buffers share a backing array kept across sections. " +
+		Explanation: "R11 (T19, as C04.R12) in package tdx a quotient used as a stride (work split into equal shares) has its remainder dealt with. " +
+			"R10 nothing in ovmf/tdx writes into storage obtained from a section's HostBuffer while section buffers share a backing array kept across sections. " +
 			"R1 declared order: every sort call in package ovmf sorts a slice allocated in the same function (a copy), so the declared order of metadata sections / regions / RAM banks is never permuted in place; tdx.MRTD extends the measurement by ranging over the regions the parser returned, in that order. " +
 			"R2 per-page sequence (ESP on the region measurement loop): within an iteration the page-add record precedes the extension records, both take the same page address expression, and extension is reachable only where the flag computed from the ExtendMR attribute or MeasureAllRegions is true. " +
 			"R3 hand-off block order (ESP on the hand-off builder — the function of package ovmf that writes an EFIHOBHandoffInfoTable): hand-off table → descriptors of the private (declared) resources → descriptors of the unaccepted resources → end-of-list marker → zero padding, and the buffer has no other writer. " +
@@ -36,6 +37,17 @@ func init() {
 
 func runC05(c *Ctx) {
 	defer c05SectionBuffers(c)
+	defer func() {
+		// R11 (T19, as C04.R12): where the measured bytes are split into equal shares, the remainder is not lost
+		var fns []*ssa.Function
+		for _, f := range c.P.RepoFunctions() {
+			if load.RelPkg(f) == "tdx" && !c.isTestFunc(f) {
+				fns = append(fns, f)
+			}
+		}
+		nq := c.partitionRemainderRule("R11", fns)
+		c.S.OK("R11", "tdx:stride quotients", "", fmt.Sprintf("%d quotients used as a stride examined", nq), false)
+	}()
 	// R8 = C08.T14: the region list built from the declared sections stays in step with the section list (the TD
 	// hand-off block is generated for the region at the index saved for the TD HOB section).
 	c.borrow("R8/C08.", runC08, func(rule, _ string) bool { return rule == "T14" })
